@@ -500,6 +500,10 @@ impl<Writer: Write> Mp4Writer<Writer> {
         if self.finalized {
             return Err(Mp4WriterError::AlreadyFinalized);
         }
+        // The composition offset (pts - dts) is stored as a signed 32-bit ctts entry.
+        if (pts as i128 - dts as i128).unsigned_abs() > i32::MAX as u128 {
+            return Err(Mp4WriterError::DurationOverflow);
+        }
         // DTS must be monotonically increasing (decode order)
         if let Some(prev) = self.video_prev_pts {
             if dts <= prev {
